@@ -328,8 +328,8 @@ class RawAlgorithmsMixIn:
             raise NotImplementedError(
                     'algopy broadcasting is not implemented for this function')
         D = x_data.shape[0]
-        xmask = numpy.less_equal(x_data[0], y_data[0])
-        z_data = numpy.empty_like(x_data)
+        xmask = numpy.less_equal(x_data[0], y_data[0]) | numpy.isnan(x_data[0])   # numpy propagates a nan of either operand
+        z_data = numpy.empty(x_data.shape, dtype=numpy.result_type(x_data.dtype, y_data.dtype))
         for d in range(D):
             # select, do not blend: 0 * inf is nan
             z_data[d] = numpy.where(xmask, x_data[d], y_data[d])
@@ -345,8 +345,8 @@ class RawAlgorithmsMixIn:
             raise NotImplementedError(
                     'algopy broadcasting is not implemented for this function')
         D = x_data.shape[0]
-        xmask = numpy.greater_equal(x_data[0], y_data[0])
-        z_data = numpy.empty_like(x_data)
+        xmask = numpy.greater_equal(x_data[0], y_data[0]) | numpy.isnan(x_data[0])   # numpy propagates a nan of either operand
+        z_data = numpy.empty(x_data.shape, dtype=numpy.result_type(x_data.dtype, y_data.dtype))
         for d in range(D):
             # select, do not blend: 0 * inf is nan
             z_data[d] = numpy.where(xmask, x_data[d], y_data[d])
